@@ -89,7 +89,20 @@ func runC23(s *simrt.Sim) {
 			m := sizeLineMutations[tp.Draw(len(sizeLineMutations), "mut.size")]
 			if i := bytes.Index(wire, []byte("\r\n")); i >= 0 {
 				// pick which size line: the first or the terminating one
-				if tp.Chance(1, 2, "mut.last") {
+				last := tp.Chance(1, 2, "mut.last")
+				if tp.Chance(1, 2, "mut.decorate") {
+					// the true size with stray blanks / controls around it: the framing that follows
+					// still fits, so only the size-line grammar can refuse it
+					pre := []string{"", " ", "\t", "\r", "\f", "\v"}[tp.Draw(6, "mut.pre")]
+					suf := []string{"", " ", "\t", "\r", "\v", "\f", " \t"}[tp.Draw(7, "mut.suf")]
+					if last {
+						m = pre + "0" + suf
+					} else {
+						m = pre + string(wire[:i]) + suf
+					}
+					s.Probe("size_line_decorated")
+				}
+				if last {
 					if j := bytes.LastIndex(wire, []byte("0\r\n\r\n")); j >= 0 {
 						wire = append(append(append([]byte{}, wire[:j]...), []byte(m+"\r\n\r\n")...))
 						desc = fmt.Sprintf("last size line %q", m)
